@@ -82,6 +82,22 @@ def build(scratch, race):
     return out, "built in %.1fs" % (time.time() - t0)
 
 
+def build_cabi(scratch):
+    lib = scratch + "/libopenwater.so"
+    drv = scratch + "/cdriver"
+    if os.path.exists(lib) and os.path.exists(drv):
+        return {"VERIF_CDRIVER": drv, "VERIF_LIBOW": lib}, "cabi already built"
+    t0 = time.time()
+    r = run([GO, "build", "-buildmode=c-shared", "-trimpath", "-modfile=" + scratch + "/go.mod", "-o", lib,
+             "github.com/flowmatters/openwater-core/libopenwater"], cwd=os.path.join(VERIF, "harness"), timeout=1800)
+    if r.returncode != 0:
+        return None, r.stdout
+    r = run(["gcc", "-O1", "-o", drv, os.path.join(VERIF, "cdriver", "driver.c"), "-ldl"])
+    if r.returncode != 0:
+        return None, r.stdout
+    return {"VERIF_CDRIVER": drv, "VERIF_LIBOW": lib}, "libopenwater.so + cdriver built in %.1fs" % (time.time() - t0)
+
+
 def worker_env(prop, cfg, tier, seed, lo, hi, out, budget, replay=None, race=False):
     e = dict(ENV, VERIF_PROP=prop, VERIF_ENGINE=cfg["engine"], VERIF_TIER=tier, VERIF_SEED=str(seed),
              VERIF_FROM=str(lo), VERIF_TO=str(hi), VERIF_OUT=out, VERIF_BUDGET_S=str(budget))
@@ -112,6 +128,16 @@ def read_jsonl(path):
 
 
 def replay_once(binary, prop, cfg, replay_path, scratch, race, tag):
+    try:
+        eng = json.load(open(replay_path)).get("engine") or cfg["engine"]
+    except Exception:
+        eng = cfg["engine"]
+    cfg = dict(cfg, engine=eng)
+    if eng == "cabi":
+        env2, msg = build_cabi(scratch)
+        if env2 is None:
+            die2("cannot build libopenwater.so for the replay:\n" + msg[-3000:])
+        cfg["env"] = dict(cfg.get("env", {}), **env2)
     out = "%s/replay.%s.jsonl" % (scratch, tag)
     log = out + ".log"
     e = worker_env(prop, cfg, "quick", 1, 0, 1, out, 600, replay=replay_path, race=race)
@@ -195,12 +221,20 @@ def main2(prop, cfg, tier, seed, scratch, instr_stats, replay_mode, t_start):
     budget = int(os.environ.get("VERIF_BUDGET_S") or tcfg.get("budget_s", 600))
     summaries, violations, harness_errors = [], [], []
 
-    phases = [(False, total_runs, 0)]
+    phases = [(False, total_runs, cfg["engine"], {})]
     if cfg.get("race"):
         rr = int(tcfg.get("race_runs", max(1, total_runs // 4)))
-        phases.append((True, rr, 0))
+        phases.append((True, rr, cfg["engine"], {}))
+    if cfg.get("cabi"):
+        env2, msg = build_cabi(scratch)
+        if env2 is None:
+            print(msg[-6000:])
+            die2("libopenwater.so / cdriver do not build from the current working tree")
+        notes.append(msg)
+        phases.append((False, int(os.environ.get("VERIF_CABI_RUNS") or tcfg.get("cabi_runs", 300)), "cabi", env2))
 
-    for race, nruns, _ in phases:
+    for race, nruns, engine, extra_env in phases:
+        pcfg = dict(cfg, engine=engine, env=dict(cfg.get("env", {}), **extra_env))
         binary = binaries[race]
         nworkers = min(NCPU, max(1, nruns))
         chunk = (nruns + nworkers - 1) // nworkers
@@ -220,7 +254,7 @@ def main2(prop, cfg, tier, seed, scratch, instr_stats, replay_mode, t_start):
                 out = "%s/w%s%d.jsonl" % (scratch, "r" if race else "", wid)
                 logp = out + ".log"
                 lf = open(logp, "w")
-                e = worker_env(prop, cfg, tier, seed, lo, hi, out, max(5, int(phase_deadline - time.time() - 60)), race=race)
+                e = worker_env(prop, pcfg, tier, seed, lo, hi, out, max(5, int(phase_deadline - time.time() - 60)), race=race)
                 p = subprocess.Popen(worker_cmd(binary), env=e, stdout=lf, stderr=subprocess.STDOUT, cwd=scratch)
                 procs.append((p, lo, hi, out, logp, lf))
             for p, lo, hi, out, logp, lf in procs:
@@ -257,7 +291,7 @@ def main2(prop, cfg, tier, seed, scratch, instr_stats, replay_mode, t_start):
                     is_race = race and p.returncode == 66
                     cls = "data-race" if is_race else "worker-died"
                     key = "race/" + race_key(tail) if is_race else "died/" + died_key(tail)
-                    violations.append({"property": prop, "engine": cfg["engine"], "class": cls, "key": key,
+                    violations.append({"property": prop, "engine": engine, "class": cls, "key": key,
                                        "message": tail[-4000:], "verif_seed": seed, "index": idx, "run_seed": rseed, "tier": tier,
                                        "mode": "generate", "work": [], "sched": [], "race_build": race})
                     if deaths <= 40 and idx + 1 < hi and time.time() < phase_deadline - 30:
